@@ -587,7 +587,43 @@ mod sync_impl {
             let started = std::time::Instant::now();
             let mut hung = false;
             let mut results: Vec<(usize, Result<Vec<(usize, String)>, String>)> = vec![];
+            // every third batch has an administrator thread that uses the Blocker's `&self`
+            // maintenance API (discard policy, discarding single regexes, debug info) while the
+            // others query: no answer may change and nobody may block for good
+            let admin = !miri && idx % 3 == 1;
+            let done = std::sync::atomic::AtomicBool::new(false);
+            let admin_ops = AtomicU64::new(0);
             std::thread::scope(|s| {
+                if admin {
+                    let e = &e;
+                    let done = &done;
+                    let admin_ops = &admin_ops;
+                    s.spawn(move || {
+                        let b = e.verif_blocker();
+                        let mut k = 0usize;
+                        while !done.load(Ordering::Relaxed) {
+                            match k % 4 {
+                                0 => b.set_regex_discard_policy(RegexManagerDiscardPolicy {
+                                    cleanup_interval: Duration::from_nanos(1 + (k as u64 % 3) * 1000),
+                                    discard_unused_time: Duration::from_nanos(1),
+                                }),
+                                1 => {
+                                    let info = b.get_regex_debug_info();
+                                    if !info.regex_data.is_empty() {
+                                        b.discard_regex(info.regex_data[k % info.regex_data.len()].id);
+                                    }
+                                }
+                                2 => b.set_regex_discard_policy(RegexManagerDiscardPolicy::default()),
+                                _ => {
+                                    let _ = b.get_regex_debug_info();
+                                }
+                            }
+                            k += 1;
+                            admin_ops.fetch_add(1, Ordering::Relaxed);
+                            std::thread::yield_now();
+                        }
+                    });
+                }
                 for t in 0..nthreads {
                     let tx = tx.clone();
                     let e = &e;
@@ -623,7 +659,12 @@ mod sync_impl {
                     eprintln!("abverif: C19 batch did not complete within 120 s (case {})", idx);
                     std::process::abort();
                 }
+                done.store(true, Ordering::Relaxed);
             });
+            if admin {
+                ctx.obs("batches_with_a_maintenance_thread", 1);
+                ctx.obs("maintenance_operations_during_batches", admin_ops.load(Ordering::Relaxed) as i64);
+            }
             verif::set_logging(false, 0);
             let (events, dropped) = verif::take_events();
             let order: Vec<usize> = events
